@@ -54,13 +54,15 @@ CLAIMED = {
          "Assumed: versions stay below 2^63-1; logging/timing helpers have no effect on the protected state.",
          "contract-based deductive verification: strict monitor, two-state postconditions relative to lock acquisition, abstract-value equality of TLA+ values (C05), inlining with statically resolved branches, z3/cvc5"),
  "C12": ("Deductive proof for the grow-only counter: Init/Read/Write/Merge against the partial-map view (Merge = pointwise max on the union of keys, Write adds to one slot, Read = wrapped sum), and, as pure lemmas over those contracts, that Merge is commutative, associative and idempotent and Write (non-negative, no overflow) is an inflation. "
-         "For the last-writer-wins set: Init/isIn/Read/Merge against two partial maps element -> instant (an element is in the set iff it has an add not older than its latest remove; Merge keeps per element the later add and the later remove — this obligation failed on the pinned tree: genuine defect, fixed in 85beb576), the merge laws up to equal instants, and that what is read depends only on the instants.",
-         "NOT covered: AWORSet (not decided by this check; DESIGN.md section 4 records from a probe that its Merge is not associative on reachable states), LWWSet.Write (stamps the wall clock unconditionally), and the gob pairs; time.Time is compared through an abstract instant; the sum over an unordered map is axiomatised by its insert step; counts are int32 with wrap-around modelled.",
+         "For the last-writer-wins set: Init/isIn/Read/Merge against two partial maps element -> instant (an element is in the set iff it has an add not older than its latest remove; Merge keeps per element the later add and the later remove — this obligation failed on the pinned tree: genuine defect, fixed in 85beb576), the merge laws up to equal instants, and that what is read depends only on the instants. "
+         "For the add-wins set: the clock order (compare = the pointwise order with absent = 0, over both loops), Write (an add / remove moves the element to the add / remove map with its current clock, add or remove, plus one for the writing replica, drops the opposite entry, keeps every other element), Read (exactly the elements whose add clock is not strictly below their remove clock), mergeKeys and Merge (per-element join of the clocks, then the two filters), add and remove maps stay disjoint; as lemmas over the contract of Merge: commutative and idempotent up to equal clocks. "
+         "The associativity lemma over that contract FAILS and is a known finding (genuine defect, demonstrated on the real code by findings/c12_aworset_merge_not_associative_demo_test.go; not repaired: it needs a redesign of the set, see DESIGN.md section 4): the check prints KNOWN-FINDING for it.",
+         "NOT covered: 'Write is an inflation' for AWORSet (no merge order is defined on its states by the code), LWWSet.Write (stamps the wall clock unconditionally), and the gob pairs; time.Time is compared through an abstract instant; the sum over an unordered map is axiomatised by its insert step; counts are int32 with wrap-around modelled.",
          "contract-based deductive verification: functional contracts + semilattice lemmas, z3/cvc5"),
  "C13": ("Deductive proof, thread-modular over the monitor stateLock (strict: every read/write of value, oldValue, hasOldValue is an obligation 'the lock is held', shared for reads, exclusive for writes; the invariant 'snapshot below working value' is re-established at every unlock), that the CRDT resource never loses state: "
          "the stable value (snapshot while a section is in flight, else the value) only grows in the semilattice order across every locked region; a state received from a peer is inside the stable value once the merger has processed it (this obligation failed on the pinned tree: genuine defect, fixed in 669cc72f); writes of the section in flight change only the working value, Abort restores exactly the stable value, Commit makes the working value stable; "
          "getStableValue and the RPC reply return the stable value (never an in-flight update); every non-nil state received over RPC is queued for the merger exactly once.",
-         "CRDT values are abstract: the semilattice laws of Merge (idempotent, commutative, associative) and 'Write is an inflation' are axioms here (for GCounter they are the lemmas proved under C12; for AWORSet/LWWSet they are assumptions, and DESIGN.md section 4 records that AWORSet.Merge violates associativity on reachable states). "
+         "CRDT values are abstract: the semilattice laws of Merge (idempotent, commutative, associative) and 'Write is an inflation' are axioms here (for GCounter they are the lemmas proved under C12; for LWWSet they hold up to equal instants, for AWORSet commutativity and idempotence are lemmas under C12 and associativity is violated on reachable states — a known finding of C12). "
          "NOT covered: broadcast/runBroadcasts/tryConnectPeers (RPC, timers, needBroadcastCount bookkeeping), hence 'eventually reaches every connected peer' (liveness) and 'replicas converge once updates stop' are not decided; Close.",
          "contract-based deductive verification: strict monitor invariants (Owicki-Gries style) over go/ssa, two-state postconditions relative to the lock acquisition (atlock), abstract semilattice axioms, z3/cvc5"),
  "C18": ("Deductive proof of the logging discipline of the runtime: the event accumulator appends exactly one element per recorded read / write, carrying the indices and the value of the access (and the old-value hint pointer for writes), BeginEvent requires an empty accumulator, CommitEvent hands the recorder exactly one event holding exactly the accumulated elements, the abort flag and the archetype identity, and never touches the handed-over elements again (this frame obligation failed on the pinned tree: genuine defect, fixed in 152ee63d); "
